@@ -9,7 +9,11 @@ import (
 	"image"
 	"sort"
 	"strconv"
+	"strings"
+	"unicode/utf8"
 
+	pta "github.com/octohelm/gengo/internal/verifa/pt"
+	ptb "github.com/octohelm/gengo/internal/verifb/pt"
 	"github.com/octohelm/gengo/internal/verifsym"
 	"github.com/octohelm/gengo/pkg/namer"
 )
@@ -37,6 +41,14 @@ type Inner struct {
 	A int
 	B string
 	c int
+}
+
+// Rec: a recursive type - values of any nesting depth from one type
+type Rec struct {
+	P *Rec
+	L []Rec
+	M map[string]Rec
+	V int
 }
 
 type Outer struct {
@@ -75,6 +87,13 @@ const vC10Decls = `package internal
 
 import "image"
 
+type Rec struct {
+	P *Rec
+	L []Rec
+	M map[string]Rec
+	V int
+}
+
 type NInt int
 type NStr string
 type NBool bool
@@ -117,6 +136,14 @@ type Outer struct {
 }
 `
 
+// the two same-named packages
+const vC10Pt = `package pt
+
+type P struct {
+	X int
+}
+`
+
 // what the checker needs to know about package image
 const vC10Image = `package image
 
@@ -126,6 +153,11 @@ type Point struct {
 `
 
 const vC10Path = "github.com/octohelm/gengo/pkg/gengo/internal"
+
+const (
+	vPtA = "github.com/octohelm/gengo/internal/verifa/pt"
+	vPtB = "github.com/octohelm/gengo/internal/verifb/pt"
+)
 
 var vInts = []int64{0, 1, -1, 7, 42, -128, 127, 9223372036854775807, -9223372036854775808}
 
@@ -151,6 +183,31 @@ func vcInner(x Inner) string {
 	}
 	if x.B != "" {
 		s += "B=" + vcStr(x.B) + ";"
+	}
+	return s + "}"
+}
+
+func vcRec(x Rec) string {
+	s := "{"
+	if x.P != nil {
+		s += "P=&" + vcRec(*x.P) + ";"
+	}
+	if len(x.L) > 0 {
+		var l []string
+		for _, e := range x.L {
+			l = append(l, vcRec(e))
+		}
+		s += "L=" + vcList(l) + ";"
+	}
+	if len(x.M) > 0 {
+		var es []string
+		for k, v := range x.M {
+			es = append(es, vcStr(k)+"=>"+vcRec(v))
+		}
+		s += "M=" + vcMap(es) + ";"
+	}
+	if x.V != 0 {
+		s += "V=" + vcInt(int64(x.V)) + ";"
 	}
 	return s + "}"
 }
@@ -443,6 +500,14 @@ func vC10Judge(tr namer.ImportTracker, text string, typeExpr string, want string
 	for _, path := range paths {
 		src += "import " + imports[path] + " " + strconv.Quote(path) + "\n"
 	}
+	// @A@ / @B@ in the type expression: the names the tracker bound the two pt packages to
+	for ph, path := range map[string]string{"@A@": vPtA, "@B@": vPtB} {
+		name, ok := imports[path]
+		if !ok {
+			name = "NOT_REGISTERED"
+		}
+		typeExpr = strings.ReplaceAll(typeExpr, ph, name)
+	}
 	src += "\nvar X " + typeExpr + " = " + text + "\n"
 	verifsym.MapOrderBaseline(true)
 	fimg, err0 := parser.ParseFile(fset, "image.go", vC10Image, 0)
@@ -461,8 +526,20 @@ func vC10Judge(tr namer.ImportTracker, text string, typeExpr string, want string
 	if err0 != nil {
 		panic("harness: package image does not type-check")
 	}
+	imp := vImp{"image": img}
+	for _, path := range []string{vPtA, vPtB} {
+		fp, errp := parser.ParseFile(fset, "pt.go", vC10Pt, 0)
+		if errp != nil {
+			panic("harness: package pt does not parse")
+		}
+		tp, errp := (&types.Config{}).Check(path, fset, []*ast.File{fp}, nil)
+		if errp != nil {
+			panic("harness: package pt does not type-check")
+		}
+		imp[path] = tp
+	}
 	info := &types.Info{Types: map[ast.Expr]types.TypeAndValue{}, Defs: map[*ast.Ident]types.Object{}, Uses: map[*ast.Ident]types.Object{}}
-	conf := types.Config{Importer: vImp{"image": img}}
+	conf := types.Config{Importer: imp}
 	pkg, err := conf.Check(vC10Path, fset, []*ast.File{fdecl, f}, info)
 	verifsym.MapOrderBaseline(false)
 	verifsym.Assert(err == nil, "the rendered value literal does not type-check as a value of its type in a file with the registered imports")
@@ -566,6 +643,14 @@ func Verif_C10_Value(group, n int) {
 		case 1:
 			o.M = map[string]int{}
 		case 2:
+			// one arbitrary key next to a fixed one (two arbitrary keys: group 11, thorough tier)
+			k1 := vSymStr(n)
+			verifsym.Assume(k1 != "b")
+			o.M = map[string]int{k1: 1, "b": 2}
+		}
+	case 11: // maps with two arbitrary distinct string keys
+		switch verifsym.IntRange(0, 1) {
+		case 1:
 			k1, k2 := vSymStr(n), vSymStr(n)
 			verifsym.Assume(k1 != k2)
 			o.M = map[string]int{k1: 1, k2: 2}
@@ -650,6 +735,68 @@ func Verif_C10_Top(kind, n int) {
 	case 8:
 		b := verifsym.Bool()
 		v, typeExpr, want = b, "bool", vcBool(b)
+	case 12: // one arbitrary valid rune of n bytes (n = 2, 3, 4) as a string
+		s := vSymStr(n)
+		verifsym.Assume(utf8.ValidString(s) && utf8.RuneCountInString(s) == 1)
+		v, typeExpr, want = s, "string", vcStr(s)
+	case 13: // pointers to composites
+		switch verifsym.IntRange(0, 3) {
+		case 0:
+			b := []byte("ab")
+			v, typeExpr, want = &b, "*[]byte", "&[97,98,]"
+		case 1:
+			l := []int{1}
+			v, typeExpr, want = &l, "*[]int", "&[1,]"
+		case 2:
+			m := map[string]int{"a": 1}
+			v, typeExpr, want = &m, "*map[string]int", "&map[s1:a=>1,]"
+		default:
+			a := [2]int{0, 5}
+			v, typeExpr, want = &a, "*[2]int", "&[0,5,]"
+		}
+	case 14: // maps with array and struct keys whose parts concatenate to the same text
+		if verifsym.Bool() {
+			v, typeExpr = map[[2]string]int{{"a b", "c"}: 1, {"a", "b c"}: 2, {"a", "b"}: 3}, "map[[2]string]int"
+			want = vcMap([]string{"[s3:a b,s1:c,]=>1", "[s1:a,s3:b c,]=>2", "[s1:a,s1:b,]=>3"})
+		} else {
+			v, typeExpr = map[Inner]int{{A: 1, B: "1 x"}: 1, {A: 11, B: "x"}: 2, {B: "1"}: 3}, "map[Inner]int"
+			want = vcMap([]string{"{A=1;B=s3:1 x;}=>1", "{A=11;B=s1:x;}=>2", "{B=s1:1;}=>3"})
+		}
+	case 15: // same-named types of two packages with the same name, in both orders, through one dumper
+		first := verifsym.Bool()
+		type two = struct {
+			A []pta.P
+			B []ptb.P
+		}
+		if first {
+			v, typeExpr = two{A: []pta.P{{X: 1}}, B: []ptb.P{{X: 2}}}, "struct {\n\tA []@A@.P\n\tB []@B@.P\n}"
+		} else {
+			v, typeExpr = two{B: []ptb.P{{X: 2}}}, "struct {\n\tA []@A@.P\n\tB []@B@.P\n}"
+			// the other package's type was rendered before, by the same dumper
+			d.ValueLit([]pta.P{{X: 7}})
+		}
+		want = "{A=[{X=1;},];B=[{X=2;},];}"
+		if !first {
+			want = "{B=[{X=2;},];}"
+		}
+	case 16: // a recursive type: every chain of n containers (pointer / slice / map) above a zero or non-zero leaf
+		leaf := Rec{}
+		if verifsym.Bool() {
+			leaf.V = 1
+		}
+		cur := leaf
+		for i := 0; i < n; i++ {
+			switch verifsym.IntRange(0, 2) {
+			case 0:
+				c := cur
+				cur = Rec{P: &c}
+			case 1:
+				cur = Rec{L: []Rec{cur}}
+			default:
+				cur = Rec{M: map[string]Rec{"k": cur}}
+			}
+		}
+		v, typeExpr, want = cur, "Rec", vcRec(cur)
 	case 10:
 		pt := image.Point{X: int(vSmall()), Y: int(vSmall())}
 		v, typeExpr, want = pt, "image.Point", vcPoint(pt)
@@ -667,5 +814,12 @@ func Verif_C10_Top(kind, n int) {
 	}
 	verifsym.Observe("text", text)
 	vC10Judge(tr, text, typeExpr, want)
+	// deterministic: the same text again, and when every map is walked in insertion order
+	msg := "the rendered text of a value is not deterministic (two renderings differ / it depends on the iteration order of a map)"
+	verifsym.Assert(d.ValueLit(v) == text, msg)
+	verifsym.MapOrderBaseline(true)
+	ref := d.ValueLit(v)
+	verifsym.MapOrderBaseline(false)
+	verifsym.Assert(ref == text, msg)
 	verifsym.Reach("end")
 }
